@@ -90,21 +90,40 @@ fn main() {
     let fam: Vec<Src> = sources::family();
     let big = 64usize;
     let mut plans = vec![];
+    let idx = |name: &str| fam.iter().position(|s| s.name == name).unwrap_or_else(|| vcore::machinery_error(&format!("no source {name}")));
     match args.tier {
         Tier::Quick => {
-            for src in 0..4 {
+            for name in ["J0", "J1", "J2", "J3"] {
                 for main_last in [false, true] {
-                    plans.push(Plan { src, k: big, main_last, dmax: 1 });
+                    plans.push(Plan { src: idx(name), k: big, main_last, dmax: 1 });
                 }
+            }
+            // the kitchen source runs (nearly) every kind of job once: the happens-before monitor
+            // judges every declared / undeclared access on the default schedules of both base orders
+            for main_last in [false, true] {
+                plans.push(Plan { src: idx("K1"), k: big, main_last, dmax: 0 });
             }
         }
         Tier::Thorough => {
             for src in 0..fam.len() {
-                for k in [big, 2] {
+                let dmax = if fam[src].name.starts_with('K') { 1 } else { 2 };
+                // with at most one demotion no more than two tasks are ever in flight (the strict-priority base
+                // scheduler runs a task to its end before the next starts), so a pool of 2 only differs from d = 2 on
+                for k in if dmax >= 2 { vec![big, 2] } else { vec![big] } {
                     for main_last in [false, true] {
-                        plans.push(Plan { src, k, main_last, dmax: 2 });
+                        plans.push(Plan { src, k, main_last, dmax });
                     }
                 }
+            }
+        }
+    }
+    // `c02 <tier> K1,J1 [d]`: only these sources (diagnostic runs)
+    if let Some(only) = args.rest.first() {
+        let names: Vec<&str> = only.split(',').collect();
+        plans.retain(|p| names.contains(&fam[p.src].name));
+        if let Some(d) = args.rest.get(1).and_then(|d| d.parse().ok()) {
+            for p in plans.iter_mut() {
+                p.dmax = d;
             }
         }
     }
@@ -113,7 +132,7 @@ fn main() {
     let mut per_plan = vec![];
     let mut samples = vec![];
     let mut all_exhaustive = true;
-    let budget_s = args.tier.pick(50.0, 1500.0);
+    let budget_s = args.tier.pick(150.0, 1500.0) * vcore::budget_scale();
     let t0 = std::time::Instant::now();
     for (pi, plan) in plans.iter().enumerate() {
         let src = &fam[plan.src];
